@@ -98,11 +98,13 @@ UNITS = [
 ]
 
 # property -> equivalence files compiled against the freshly generated GSrc.v
+_HIST = ["EqStats.v", "EqCusum.v", "EqSPC.v", "EqHDDM.v", "EqHDDMW.v", "EqRDDM.v", "EqExec.v"]
 EQ = {
+    "C01": _HIST,  # constant-stream silence over the generated code, for every update/reset history
     "C18": ["EqStats.v"],
     "C07": ["EqStats.v", "EqCusum.v"],
     "C19": ["EqStats.v", "EqConfig.v"],
-    "C02": ["EqStats.v", "EqCusum.v", "EqSPC.v", "EqRDDM.v"],
+    "C02": _HIST,  # reset() = where a fresh history starts, over the generated code
     "C03": ["EqStats.v", "EqSPC.v", "EqRDDM.v"],
     "C04": ["EqStats.v", "EqHDDM.v", "EqHDDMW.v"],
 }
